@@ -570,11 +570,17 @@ def mask_unmodelled(impl, model, ops=None):
                     if x == "F:unmodelled:0":
                         if ra[i].startswith("S:") and i < len(txs) and txs[i] and txs[i][0] == "ibtp":
                             stop = True
+                        # a governance operation that succeeded may have changed service / appchain / role records the model
+                        # does not follow (getters cannot)
+                        if (ra[i].startswith("S:") and i < len(txs) and len(txs[i]) > 3 and txs[i][0] == "bvm"
+                                and txs[i][2] in ("gov", "service", "appchain", "role", "rule", "node", "strategy")
+                                and not re.match(r"^(Get|Is|Count|Has|Appchains|Nodes|Rules|Zero)", txs[i][3])):
+                            stop = True
                         ra[i] = rb[i] = "?"
                 a = ma.group(1) + " ".join(ra) + ma.group(3)
                 b = mb.group(1) + " ".join(rb) + mb.group(3)
         if stop:
-            return oi, om
+            return oi + [a], om + [b]
         oi.append(a)
         om.append(b)
     return oi + list(impl[len(oi):]), om + list(model[len(om):])
